@@ -502,8 +502,11 @@ def sig_ambiguous_holes(case, params):
     try:
         res = DynamicResource(case["template"])
         u = res.url_for(**case["values"])
-        got = res._match(URL.build(path=URL(str(u)).raw_path, encoded=True).path_safe)
-        return got is not None and got != case["values"] and res.url_for(**got) == u
+        seen = lambda url: URL.build(path=URL(str(url)).raw_path, encoded=True).path_safe   # the path the router matches on
+        got = res._match(seen(u))
+        # "the very same URL": the same path as the server sees it (url_for quotes every value on its own, so the two
+        # spellings may differ in an optional escape such as %3A / ':' while denoting one path)
+        return got is not None and got != case["values"] and seen(res.url_for(**got)) == seen(u)
     except Exception:  # noqa
         return False
 
